@@ -195,9 +195,7 @@ def parts(tier):
                   ['client-DISCONNECT', 'transport-loss'], ['server.disconnect', 'server.disconnect'],
                   ['client-DISCONNECT', 'client-DISCONNECT']]
     out += [dict(acts=p, pre=[a], eio_points=False, fine='lookups', preempt=2) for p in fine_pairs for a in (0, 1)]
-    if tier == 'thorough':
-        out += [dict(acts=p, pre=[a], eio_points=False, fine='all', preempt=2) for p in fine_pairs for a in (0, 1)]
-        out += [dict(acts=p, pre=[a], eio_points=False, fine='lookups', preempt=3) for p in fine_pairs for a in (0, 1)]
+    # (fine='all' - the clean-up functions line by line - and preempt=3 exist but are not registered: not exhausted here)
     if tier == 'thorough':
         main_pairs = [['server.disconnect', 'client-DISCONNECT'], ['server.disconnect', 'transport-loss'],
                       ['client-DISCONNECT', 'transport-loss'], ['server.disconnect', 'server.disconnect']]
@@ -220,12 +218,14 @@ META = dict(
     bounds={'quick': 'all schedules of every pair from {server.disconnect, client DISCONNECT, transport loss} on the '
                      'same sid and of each with a disconnect of the transport\'s other namespace; pre-emption before '
                      'every manager call and inside the disconnect handler (for server.disconnect || transport loss also '
-                     'before every engine.io call)',
+                     'before every engine.io call); five pairs again with every source line of is_connected, sid_from_eio_sid, '
+                     'eio_sid_from_sid, can_disconnect and pre_disconnect as a pre-emption point (sys.settrace in the worker '
+                     'threads) and at most two pre-emptions per schedule, exhaustively',
             'thorough': 'plus pre-emption before every engine.io call, plus pre-emption inside manager.disconnect (before '
                         'every nested leave_room), plus three triples of concurrent actions '
                         '(triples are budgeted, not exhausted)'},
-    outside=['pre-emption inside manager methods (CPython-level atomicity of dict operations is assumed)',
+    outside=['pre-emption inside manager methods other than the look-ups listed in the bounds; more than two pre-emptions per schedule where pre-emption is line by line; pre-emption inside a source line (CPython-level atomicity of dict operations is assumed)',
              'more than three threads'],
     stubs=['engine.io server -> FakeEio', 'JSON text -> TokJson'],
-    assumptions=['each manager / engine.io method call is atomic'],
+    assumptions=['each manager / engine.io method call is atomic, except in the line-level partitions, where each source line is'],
 )
